@@ -33,6 +33,8 @@ enum Observer {
     Addr,
     Weak,
     CloneAtQuery,
+    /// the observer awaits its own handle by reference, then queries that very handle
+    AwaitedByRef,
 }
 
 struct S {
@@ -83,12 +85,14 @@ impl Scene for S {
             Observer::Addr => vec![Op::Stopped(H::Addr(0)), Op::Running(H::Addr(0))],
             Observer::Weak => vec![Op::Stopped(H::WAddr(0))],
             Observer::CloneAtQuery => vec![Op::Clone(H::Addr(0)), Op::Stopped(H::Addr(1)), Op::Running(H::Addr(1)), Op::Drop(H::Addr(1))],
+            Observer::AwaitedByRef => vec![Op::Stopped(H::Addr(0)), Op::Running(H::Addr(0)), Op::AwaitRef(H::Addr(0))],
         };
         let mut o_ops = q.clone();
         o_ops.push(Op::Sleep(10));
         // after the sleep everything has settled: the late queries
         match self.obs {
             Observer::CloneAtQuery => o_ops.extend([Op::Clone(H::Addr(0)), Op::Stopped(H::Addr(2)), Op::Running(H::Addr(2))]),
+            Observer::AwaitedByRef => o_ops.extend([Op::Stopped(H::Addr(0)), Op::Running(H::Addr(0))]),
             _ => o_ops.extend(q),
         }
         // awaiter
@@ -115,6 +119,15 @@ impl Scene for S {
         let term_idx = actor_task.and_then(|at| {
             t.log.iter().position(|e| matches!(e.ev, Ev::X(XEv::End { task, .. }) if task == at))
         });
+        for e in t.log.iter() {
+            if let Ev::End { c: 1, i: opi, r: Res::Panicked } = e.ev {
+                out.push(Violation {
+                    clause: "liveness-query-truthful",
+                    key: format!("C14/query-panics/obs={:?}/awaiting={:?}", self.obs, self.awaiting),
+                    detail: format!("observer operation {opi} panicked (cause {:?})", self.cause),
+                });
+            }
+        }
         for (i, e) in t.log.iter().enumerate() {
             if let Ev::End { c: 1, i: opi, r: Res::Bool(b) } = e.ev {
                 let after = term_idx.is_some_and(|ti| i > ti);
@@ -158,6 +171,7 @@ impl S {
             Observer::Addr => matches!(opi, 1 | 4),
             Observer::Weak => false,
             Observer::CloneAtQuery => matches!(opi, 2 | 7),
+            Observer::AwaitedByRef => matches!(opi, 1 | 5),
         }
     }
 }
@@ -181,7 +195,7 @@ fn cases(tier: Tier) -> Vec<Case> {
     let mailboxes: &[Mailbox] = if tier == Tier::Quick { &[Mailbox::U] } else { &[Mailbox::U, Mailbox::B(0), Mailbox::B(1)] };
     for &cause in &causes {
         for awaiting in [Awaiting::Nobody, Awaiting::Await, Awaiting::PollOnce] {
-            for obs in [Observer::Addr, Observer::Weak, Observer::CloneAtQuery] {
+            for obs in [Observer::Addr, Observer::Weak, Observer::CloneAtQuery, Observer::AwaitedByRef] {
                 if cause == Cause::DropAll && (obs != Observer::Weak || awaiting == Awaiting::Await) {
                     continue;
                 }
